@@ -287,6 +287,10 @@ void do_op(string op, string ctx) {
   case "svsave":
     o = ob_of("sv"); if (o) vlog("\"e\":\"Saved\",\"ok\":" + o->plain_save(f[1]));
     break;
+  case "xcall3":   // xcall3:O:FUNCTION:STRING:STRING
+    o = ob_of(f[1]);
+    if (o) call_other(o, f[2], f[3], f[4]);
+    break;
   case "clr":
     map_delete(scripts, f[1]);
     break;
